@@ -238,7 +238,8 @@ def run(ctx):
     if fin:
         cb = fin[0].args[1] if len(fin[0].args) > 1 else None
         tracked = norm(fin[0].args[0]) if fin[0].args else ""
-        cbdef = next((s for s in init.body if isinstance(s, ast.FunctionDef) and isinstance(cb, ast.Name) and s.name == cb.id), None)
+        cbu = program.resolve_callable(program.unit("decorator.py::FunctionDecoratorManager.__init__"), cb) if cb is not None else None
+        cbdef = cbu.node if cbu is not None and isinstance(cbu.node, ast.FunctionDef) else None  # a nested function or a method of the manager
         if cbdef is not None and tracked == "eval_func_var":
             free = {m.id for m in ast.walk(cbdef) if isinstance(m, ast.Name)}
             stops = any((call_name(m) or "").endswith(".stop") for m in ast.walk(cbdef) if isinstance(m, ast.Call))
@@ -374,7 +375,7 @@ def func_var_death_rule(ctx, program, rid):
         heap = {"dm.status": Sym(("clsattr", "DecoratorManagerStatus", st)), "dm.eval_func": ObjV("ef", "EvalFunc"), "ef.global_ctx": ObjV("gctx", "GlobalContext"),
                 "gctx.dms": ListV((dm,), "set"), "gctx.dms_delay_start": ListV((dm,) if st == "VALIDATED" else (), "set"), "gctx.triggers_delay_start": ListV((), "set"),
                 "dm._decorators": ListV((ObjV("d0", "Decorator"),), "list"), "dm.name": Const("f")}
-        out = run_flow(program, uid, pol, heap=heap)
+        out = run_flow(program, uid, pol, args={"self": dm}, heap=heap)  # (`self` is the closure variable of a nested finaliser, the receiver of a method)
         bad = None
         ex = exits(out)
         for k, c, d in ex:
